@@ -102,8 +102,17 @@ impl<const N: usize> P<N> {
     }
 }
 
+/// burst mode (`mt-burst`): destructors are counted, not logged
+static BURST: std::sync::atomic::AtomicBool = std::sync::atomic::AtomicBool::new(false);
+static BURST_DTORS: AtomicU32 = AtomicU32::new(0);
+
 impl<const N: usize> Drop for P<N> {
     fn drop(&mut self) {
+        if BURST.load(Ordering::Relaxed) {
+            BURST_DTORS.fetch_add(1, Ordering::SeqCst);
+            self.canary = 0;
+            return;
+        }
         let ok = self.check().1;
         rec(json!({"ev":"dtor","op":"-","obj":self.id,"v": u8::from(ok)}));
         self.canary = 0; // poison: a later read through a stale handle shows up as a damaged canary
@@ -516,6 +525,92 @@ fn run<L: Pl>(threads: u32, ops: u64, slabcap: usize, gone: bool, out: &str) {
     }
     drop(pool);
     dump();
+}
+
+/// mt-burst <threads> <rounds> <out>: every round a FRESH BlindPool; all threads insert their first object - of the same,
+/// so far unseen layout - at the same instant (spinning rendezvous), keep the handle, meet again; the main thread then
+/// notes len(), how many handles still read their own intact object and how many destructors have run already (none may
+/// have), the handles are dropped and len() is noted again.  One record per round; hook H1's callback is not installed.
+pub fn burst(args: &[String]) {
+    use std::sync::atomic::AtomicUsize;
+    let (threads, rounds, out): (usize, usize, &String) = (args[0].parse().unwrap(), args[1].parse().unwrap(), &args[2]);
+    let budget = std::time::Duration::from_secs(args.get(3).and_then(|s| s.parse().ok()).unwrap_or(20));
+    let t0 = std::time::Instant::now();
+    BURST.store(true, Ordering::SeqCst);
+    let tr = Tracer::create(out);
+    tr.emit(&json!({"ev":"reset","idx":0,"mode":"burst","threads":threads}));
+    let slot: Arc<Mutex<Option<BlindPool>>> = Arc::new(Mutex::new(None));
+    let phase = Arc::new(AtomicUsize::new(0));       // 3 * round + {1: pool published, 2: go, 3: drop}
+    let arrived = Arc::new(AtomicUsize::new(0));
+    let intact = Arc::new(AtomicUsize::new(0));
+    let mut hs = Vec::new();
+    for w in 0..threads {
+        let (slot, phase, arrived, intact) = (slot.clone(), phase.clone(), arrived.clone(), intact.clone());
+        hs.push(std::thread::spawn(move || {
+            for r in 0..rounds {
+                while phase.load(Ordering::SeqCst) < 3 * r + 1 {
+                    if phase.load(Ordering::SeqCst) == usize::MAX {
+                        return;
+                    }
+                    std::thread::yield_now();
+                }
+                if phase.load(Ordering::SeqCst) == usize::MAX {
+                    return;
+                }
+                let pool = slot.lock().unwrap().as_ref().unwrap().clone();
+                arrived.fetch_add(1, Ordering::SeqCst);
+                while phase.load(Ordering::SeqCst) < 3 * r + 2 {
+                    std::hint::spin_loop();
+                }
+                let id = (r * threads + w) as u32 + 1;
+                let h = BlindPool::insert(&pool, PB::new(id));
+                arrived.fetch_add(1, Ordering::SeqCst);
+                while phase.load(Ordering::SeqCst) < 3 * r + 3 {
+                    std::thread::yield_now();
+                }
+                let (got, ok) = h.deref().check();
+                if got == id && ok {
+                    intact.fetch_add(1, Ordering::SeqCst);
+                }
+                drop(h);
+                drop(pool);
+                arrived.fetch_add(1, Ordering::SeqCst);
+            }
+        }));
+    }
+    for r in 0..rounds {
+        if t0.elapsed() > budget {
+            break;
+        }
+        let pool = BlindPool::new();
+        *slot.lock().unwrap() = Some(pool.clone());
+        arrived.store(0, Ordering::SeqCst);
+        intact.store(0, Ordering::SeqCst);
+        BURST_DTORS.store(0, Ordering::SeqCst);
+        phase.store(3 * r + 1, Ordering::SeqCst);
+        while arrived.load(Ordering::SeqCst) < threads {
+            std::thread::yield_now();
+        }
+        phase.store(3 * r + 2, Ordering::SeqCst);
+        while arrived.load(Ordering::SeqCst) < 2 * threads {
+            std::thread::yield_now();
+        }
+        let len = pool.len();
+        let early = BURST_DTORS.load(Ordering::SeqCst);
+        phase.store(3 * r + 3, Ordering::SeqCst);
+        while arrived.load(Ordering::SeqCst) < 3 * threads {
+            std::thread::yield_now();
+        }
+        let after = pool.len();
+        let dtors = BURST_DTORS.load(Ordering::SeqCst);
+        tr.emit(&json!({"ev":"burst","n":threads,"len":len,"early":early,"intact":intact.load(Ordering::SeqCst),"after":after,"dtors":dtors,"round":r}));
+        *slot.lock().unwrap() = None;
+    }
+    phase.store(usize::MAX, Ordering::SeqCst);
+    for h in hs {
+        h.join().expect("burst thread");
+    }
+    tr.flush();
 }
 
 pub fn main(args: &[String]) {
